@@ -409,6 +409,34 @@ func ruleC09(c *Ctx) {
 			}
 		}
 	}
+	// positive control for the function-value rule (no call through a possibly nil function value exists in the cone today)
+	ctlFired := 0
+	for _, fn := range controlFns(c, "nilcall") {
+		res := c.intraKernel(fn)
+		if res == nil {
+			continue
+		}
+		sub := NewCtx(c.P, c.Prop, c.Tier)
+		sub.Kernels, sub.KStats = c.Kernels, c.KStats
+		k2 := &c09{c: sub, retSummary: map[string]int{}, inProgress: map[string]bool{}}
+		var a, b int
+		for _, t := range res.Terms {
+			for _, e := range t.St.events {
+				if e.Kind == EvCall && strings.HasPrefix(e.Callee, "dynamic:") {
+					k2.checkCall(t, e, shortFn(fn), c.P.InstrPos(e.Instr), &a, &b)
+				}
+			}
+		}
+		for _, o := range sub.Obs {
+			if o.Status == "violated" {
+				ctlFired++
+			}
+		}
+	}
+	c.Controls["C09-R2 nilcall"] = ctlFired > 0
+	if ctlFired == 0 {
+		c.bad("C09-R2", "controls/nilcall", "positive control", "-", "the function-value rule did not flag the control that calls a map entry without checking it")
+	}
 	nCov := 0
 	for _, fn := range cone {
 		if covered[fn] {
@@ -542,10 +570,27 @@ func (k *c09) checkCall(t *Terminal, e *Event, fname, pos string, nPre, nNil *in
 	name := e.Callee
 	ct := lookupContract(name)
 	short := shortName(name)
-	// module callee: pointer arguments must be non-nil (callee assumes it)
+	// call through a function value (map entry, field, variable): calling nil panics
+	if strings.HasPrefix(name, "dynamic:") && len(e.Args) > 0 {
+		*nNil++
+		what := "call through function value " + ap(e.Args[0])
+		if s := c.P.exprAt(e.Instr.Pos()); s != "" {
+			what = "call through function value in " + s
+		}
+		if ok, why := k.nonNil(t, e.NFacts, e.Args[0]); ok {
+			c.ok("C09-R2", fname, what, pos, why)
+		} else {
+			o := c.bad("C09-R2", fname, what, pos, "the called function value "+ap(e.Args[0])+" is not known to be non-nil on this path (a missing map entry or unset field yields nil, and calling nil panics)")
+			o.Path = t.pathDesc(c.P)
+		}
+		return
+	}
+	// module callee: pointer and function arguments must be non-nil (callee assumes it)
 	if e.CalleeFn != nil && c.P.inModule(e.CalleeFn) {
 		for i, a := range e.Args {
-			if _, isPtr := a.Type().Underlying().(*types.Pointer); !isPtr {
+			_, isPtr := a.Type().Underlying().(*types.Pointer)
+			_, isFn := a.Type().Underlying().(*types.Signature)
+			if !isPtr && !isFn {
 				continue
 			}
 			*nNil++
